@@ -242,7 +242,7 @@ def ob_logcounter_compose(umax, timeout_ms):
     draws = RealDraws(2)
     cI, nrI = z3.Ints("counter num_reserved")
     base = z3.Real("base")
-    pre_pc = [base > 1, cI >= 0, cI <= umax, nrI >= 0, nrI < umax]
+    pre_pc = [base > 1, cI >= 0, cI <= umax, nrI >= 0, nrI < umax - 1]   # num_reserved = umax - 1 leaves a single log step: no base exists, the constructor refuses every such configuration
 
     def run(c_val, ptr_val, v):
         ex = Executor(fpmode="real", stubs={"_rand": draws.stub()}, loop_bound=4)
